@@ -253,6 +253,18 @@ func (r *Report) finish(verifDir string, seed int64, start time.Time, level, lev
 	}
 
 	// evidence
+	if r.Assume == nil {
+		r.Assume = []string{"go/packages, go/types, go/ssa and go/cfg of x/tools v0.29.0 represent /repo's source faithfully"}
+	}
+	if r.NotCovered == nil {
+		r.NotCovered = []string{}
+	}
+	if r.Controls == nil {
+		r.Controls = []string{}
+	}
+	if r.Stats == nil {
+		r.Stats = []*RuleStat{}
+	}
 	samples := []any{}
 	for _, o := range r.Obs {
 		samples = append(samples, o)
